@@ -23,6 +23,9 @@ from typing import Dict, List, Optional, Tuple
 VERIF = Path(__file__).resolve().parent.parent
 
 
+PATCH_SEPARATOR = "\n#### NEXT PATCH ####\n"
+
+
 def _make_variant(root: Path, patch_text: str, reverse: bool) -> Optional[Path]:
     base = Path(tempfile.mkdtemp(prefix="fordsa_", dir=os.environ.get("TMPDIR") or None))
     try:
@@ -32,17 +35,20 @@ def _make_variant(root: Path, patch_text: str, reverse: bool) -> Optional[Path]:
             (base / "docs" / "user_guide").mkdir(parents=True)
             for f in d.glob("writing_documentation.rst"):
                 shutil.copy(f, base / "docs" / "user_guide" / f.name)
-        p = base / "variant.patch"
-        p.write_text(patch_text)
-        cmd = ["git", "apply", "-C1", "--include=ford/*", "--include=docs/*"] + (["-R"] if reverse else []) + [str(p)]
-        r = subprocess.run(cmd, cwd=base, capture_output=True, text=True)
-        if r.returncode != 0 and shutil.which("patch"):
-            # later commits touched neighbouring lines: retry with fuzzy context
-            r = subprocess.run(["patch", "-p1", "--fuzz=3", "--no-backup-if-mismatch", "-s", "-f"] +
-                               (["-R"] if reverse else []) + ["-i", str(p)], cwd=base, capture_output=True, text=True)
-        if r.returncode != 0:
-            shutil.rmtree(base, ignore_errors=True)
-            return None
+        # a variant may consist of several patches applied one after the other (a fix commit that had a follow-up commit is
+        # reverted follow-up first)
+        for i, part in enumerate(patch_text.split(PATCH_SEPARATOR)):
+            p = base / f"variant{i}.patch"
+            p.write_text(part)
+            cmd = ["git", "apply", "-C1", "--include=ford/*", "--include=docs/*"] + (["-R"] if reverse else []) + [str(p)]
+            r = subprocess.run(cmd, cwd=base, capture_output=True, text=True)
+            if r.returncode != 0 and shutil.which("patch"):
+                # later commits touched neighbouring lines: retry with fuzzy context
+                r = subprocess.run(["patch", "-p1", "--fuzz=3", "--no-backup-if-mismatch", "-s", "-f"] +
+                                   (["-R"] if reverse else []) + ["-i", str(p)], cwd=base, capture_output=True, text=True)
+            if r.returncode != 0:
+                shutil.rmtree(base, ignore_errors=True)
+                return None
         return base
     except Exception:
         shutil.rmtree(base, ignore_errors=True)
@@ -119,11 +125,17 @@ def variants_for(prop: str, root: Path) -> List[tuple]:
             if key in seen:
                 continue
             seen.add(key)
-            r = subprocess.run(["git", "-C", str(root), "show", "--format=", k["commit"], "--", "ford", "docs"],
-                               capture_output=True, text=True)
-            if r.returncode != 0 or not r.stdout.strip():
+            texts = []
+            for c in list(k.get("revert_with", [])) + [k["commit"]]:      # follow-up commits first (newest first), then the fix
+                r = subprocess.run(["git", "-C", str(root), "show", "--format=", c, "--", "ford", "docs"],
+                                   capture_output=True, text=True)
+                if r.returncode != 0 or not r.stdout.strip():
+                    texts = []
+                    break
+                texts.append(r.stdout)
+            if not texts:
                 continue
-            out.append((prop, f"revert {k['commit']} ({k['rule']} {k['construct'][:50]})", str(root), r.stdout, True,
+            out.append((prop, f"revert {k['commit']} ({k['rule']} {k['construct'][:50]})", str(root), PATCH_SEPARATOR.join(texts), True,
                         (k["rule"], k["construct"])))
     return out
 
